@@ -70,7 +70,7 @@ class LineShape:
     def __init__(self, pattern: str) -> None:
         self.pattern = pattern
         self.ast = rx.parse(pattern)
-        self.items = rx.seq_items(self.ast)
+        self.items = rx.seq_items(rx.strip_groups(self.ast))
         self.group_pos: Dict[int, int] = {}
         for i, it in enumerate(self.items):
             if isinstance(it, rx.Group) and it.kind == "cap":
